@@ -369,12 +369,7 @@ func genIDList(t *rapid.T, label string, pool []string) (add, remove []string) {
 
 // ---------------------------------------------------------------- case generator
 
-type genOpts struct {
-	// exclude* switch off shapes of known findings (see NOTES.md); set from pbt.Stats.IsKnown.
-	excluded func(shape string) bool
-}
-
-func genRTCase(t *rapid.T, o genOpts) *rtCase {
+func genRTCase(t *rapid.T) *rtCase {
 	c := &rtCase{}
 	c.Restart = rapid.SampledFrom([]string{"same-db", "copy"}).Draw(t, "restart")
 	c.SecondGen = rapid.IntRange(0, 2).Draw(t, "secondgen") == 0
@@ -452,6 +447,9 @@ func genRTCase(t *rapid.T, o genOpts) *rtCase {
 		}
 		k.Cfg = connCfg{Name: genStr(t, "conn.name", 256, false), Settings: genSettings(t, "conn.settings")}
 		k.Prov = rapid.IntRange(0, 1).Draw(t, "conn.prov")
+		if rapid.IntRange(0, 24).Draw(t, "conn.prov.dlq") == 0 {
+			k.Prov = provisionedDLQ
+		}
 		if rapid.IntRange(0, 2).Draw(t, "conn.upd") == 0 {
 			k.Update = &connUpdate{Plugin: genStr(t, "conn.plugin2", 1024, false),
 				Cfg: connCfg{Name: genStr(t, "conn.name2", 256, false), Settings: genSettings(t, "conn.settings2")}}
@@ -553,7 +551,6 @@ func genRTCase(t *rapid.T, o genOpts) *rtCase {
 		}
 		c.Processors = append(c.Processors, p)
 	}
-	_ = o
 	return c
 }
 
@@ -561,7 +558,7 @@ func genRTCase(t *rapid.T, o genOpts) *rtCase {
 
 type features struct {
 	highByte, control, nilVsEmpty, large bool
-	classes                             map[string]bool
+	classes                              map[string]bool
 }
 
 func (f *features) str(s string) {
